@@ -44,7 +44,7 @@ def main(argv=None):
         return 2
     from harness import special
     if a.prop == 'selftest':
-        return special.selftest()
+        return special.selftest(with_mutants=not os.environ.get('FBV_SELFTEST_FAST'))
     if a.replay:
         return special.replay(a.prop, a.replay)
     from harness import props
